@@ -21,6 +21,7 @@ SEG = "reassembly::segment::Segment"
 def run(ctx):
     prog = ctx.prog()
     b_step(ctx, prog)
+    b_flow(ctx, prog)
     # ---------------------------------------------------------------- B-KEY
     fh = prog.method("BufId", "from_header")
     aggs = K.aggregates(fh, "buf_id::BufId")
@@ -321,3 +322,82 @@ def b_step(ctx, prog):
     probs = sorted(set(probs))
     (ctx.bad if probs else ctx.ok)("B-STEP", "B-STEP:Segment::receive_packet", rp.span, "; ".join(probs[:4]) if probs else
         "RFC 791 steps (8)-(17) on all %d paths: blocks [FO, FO+(TL-IHL*4+7)/8) marked, TDL = TL-IHL*4+FO*8 on MF=0, header kept from FO=0, released iff TDL != 0 and blocks 0..(TDL+7)/8 complete with TL = TDL+IHL*4 and MF cleared, otherwise epoch+1 and timer = max(timer, TTL)" % npaths)
+
+
+def b_flow(ctx, prog):
+    """Reassembly::receive_packet as a formula: RFC 791 steps (1)-(7), (16), (18) - which buffer is touched and when
+    it is released."""
+    from .. import symx as S
+    rp = prog.method("Reassembly", "receive_packet")
+    try:
+        ex = S.Extractor(prog, (), effects=True, max_nodes=60000)
+        t = ex.run(rp, S.params_of(rp))
+    except S.Unsupported as e:
+        ctx.require(False, "B-FLOW: Reassembly::receive_packet cannot be reduced to a formula (%s)" % e)
+    SELF, H, B = S.params_of(rp)
+    SEGS = ("field", SELF, "segments")
+    is_key = lambda x: x[0] == "call" and x[1].endswith("buf_id::{impl#0}::from_header") and x[2] == (H,)
+    probs = []
+    n = 0
+
+    def paths(x, conds):
+        if x[0] == "ite":
+            yield from paths(x[2], conds + [(x[1], True)])
+            yield from paths(x[3], conds + [(x[1], False)])
+        elif x[0] == "switch":
+            for v, y in x[2]:
+                yield from paths(y, conds + [(x[1], ("eq", v))])
+            if x[3][0] != "unreachable":
+                yield from paths(x[3], conds + [(x[1], ("other",))])
+        else:
+            yield conds, x
+    whole_seen = False
+    for conds, leaf in paths(t, []):
+        n += 1
+        last = fo0 = None
+        for c, v in conds:
+            if c[0] == "call" and c[1].rsplit("::", 1)[-1] == "is_last_fragment":
+                last = v
+            elif c[0] == "bin" and c[1] in ("Eq", "Ne") and ("const", 0) in (c[2], c[3]) and S.lin(c[3] if c[2] == ("const", 0) else c[2]) == S.lin(("field", H, "fragment_offset")):
+                fo0 = (v if c[1] == "Eq" else not v) if isinstance(v, bool) else None
+        ret = leaf[1] if leaf[0] == "state" else leaf
+        st = dict(leaf[2]) if leaf[0] == "state" else {}
+        segs = None
+        if SELF in st:
+            _r, fs = S.with_fields(st[SELF])
+            segs = fs.get("segments")
+        kind = ret[1].rsplit("::", 1)[-1] if ret[0] == "agg" else "?"
+        whole = last is True and fo0 is True
+        if whole:
+            whole_seen = True
+            if not (kind == "Complete" and ret[2] == (H, B)):
+                probs.append("an unfragmented datagram (FO = 0, MF = 0) is not passed on unchanged")
+            if not (segs is not None and segs[0] == "upd" and segs[1].rsplit("::", 1)[-1] == "remove" and segs[3][0] == SEGS and is_key(segs[3][1])):
+                probs.append("an unfragmented datagram is passed on without flushing the reassembly buffer of its BUFID (RFC 791 steps 3-4): fragments received before it still count towards a later completion and can be spliced into another datagram")
+            continue
+        if kind == "Complete":
+            if not (segs is not None and segs[0] == "upd" and segs[1].rsplit("::", 1)[-1] == "remove" and is_key(segs[3][1])):
+                probs.append("the reassembly resources are not released when a datagram completes (step 16)")
+        elif kind == "Incomplete":
+            if len(ret[2]) != 3 or not is_key(ret[2][1]):
+                probs.append("Incomplete does not hand back the BUFID of the packet at hand")
+            else:
+                ep = ret[2][2]
+                if not (ep[0] == "field" and ep[2] == "epoch" and ep[1][0] == "upd" and ep[1][1].rsplit("::", 1)[-1] == "receive_packet"):
+                    probs.append("Incomplete does not carry the epoch of the buffer after this arrival")
+                to = ret[2][0]
+                if "timeout_seconds" not in S.term_str(to):
+                    probs.append("Incomplete does not carry the buffer's timer")
+            if segs is not None and segs[0] == "upd" and segs[1].rsplit("::", 1)[-1] == "remove":
+                probs.append("the buffer of an incomplete datagram is released")
+        else:
+            probs.append("unexpected result %s" % S.term_str(ret)[:60])
+        # the buffer used is the one keyed by this packet
+        ent = [a for a in S.atoms(leaf, lambda x: x[0] == "call" and x[1].rsplit("::", 1)[-1] == "entry" and x[2] and x[2][0] == SEGS)]
+        if not ent or not all(is_key(a[2][1]) for a in ent):
+            probs.append("the reassembly buffer is not the one keyed by the packet's (source, destination, protocol, identification)")
+    if not whole_seen:
+        probs.append("no separate path for an unfragmented datagram (FO = 0, MF = 0)")
+    probs = sorted(set(probs))
+    (ctx.bad if probs else ctx.ok)("B-FLOW", "B-FLOW:Reassembly::receive_packet", rp.span, "; ".join(probs[:3]) if probs else
+        "whole datagram: flush BUFID and pass on unchanged; fragment: buffer keyed by BUFID, released exactly on completion, Incomplete carries (timer, BUFID, epoch after this arrival) (%d paths)" % n)
